@@ -118,7 +118,9 @@ def timeFromIso (s : Str) : Option TimeV := do
   | [] => some ⟨⟨h, mi, sec, us⟩, none⟩
   | _ => do
     let o ← pOffset s
-    some ⟨⟨h, mi, sec, us⟩, some o⟩
+    -- CPython (`tzinfo_from_isoformat_results`) tests only the whole seconds of the offset for zero
+    -- and then answers UTC, dropping a sub-second offset
+    some ⟨⟨h, mi, sec, us⟩, some (if o.natAbs < 1000000 then 0 else o)⟩
 
 /-- `float(s)` succeeds: `[+-]digits[.digits]` (the strings met are never exponent / inf / nan literals) -/
 def floatParses (s : Str) : Bool :=
